@@ -1,6 +1,6 @@
 (* C20 - consistency of inv_map with the mapping / callback / value vectors,
    well-formedness of every snapshot (in flight and held by the realtime
-   side), preserved by every event of a quiescent history; crash-freedom *)
+   side), preserved by every event of a nocross history; crash-freedom *)
 From Coq Require Import List ZArith Bool Lia.
 From RtoscV Require Import Midi.MidiModel Midi.MidiSpec Midi.MidiProofs Midi.MidiProto.
 Import ListNotations.
@@ -818,7 +818,7 @@ Proof.
       eexists. eexists. split; [reflexivity |]. constructor; cbn [wn wr chN chR]; assumption.
 Qed.
 
-(* the combined invariant in the shape  Inv init / Inv s -> quiescent step -> Inv s' *)
+(* the combined invariant in the shape  Inv init / Inv s -> nocross step -> Inv s' *)
 Definition Inv (U : list Z) (ports : list port) (w : world) (pend : Z) (tg : list tag) : Prop :=
   G U w pend tg /\ J ports w.
 
@@ -836,11 +836,11 @@ Proof.
   split; [| exact J']. eapply (G_step U US ports); eassumption.
 Qed.
 
-(* lifted over histories: a quiescent history never crashes and ends in Inv *)
+(* lifted over histories: a nocross history never crashes and ends in Inv *)
 Lemma Inv_run : forall U ports, (length U <= 32)%nat ->
   forall evs w pend tg tr fin,
   Inv U ports w pend tg -> Forall (ev_ok U) evs -> Forall (evok ports) evs ->
-  run ports w evs = (tr, fin) -> quiescent_from pend tg evs tr = true ->
+  run ports w evs = (tr, fin) -> nocross_from pend tg evs tr = true ->
   length tr = length evs /\ exists w', fin = Some w' /\ J ports w'.
 Proof.
   intros U ports US. induction evs as [| e es IH]; intros w pend tg tr fin HI E1 E2 Hr Hq.
@@ -849,7 +849,7 @@ Proof.
     destruct (Inv_step U ports w pend tg e US HI H1 H3) as [w' [o [S Nx]]].
     cbn [run] in Hr. rewrite S in Hr. destruct (run ports w' es) as [tr' fin'] eqn:R.
     inversion Hr; subst tr fin; clear Hr.
-    rewrite quiescent_from_step in Hq.
+    rewrite nocross_from_step in Hq.
     destruct (qstep pend tg e o) as [[p' tg'] |] eqn:Q; [| discriminate].
     destruct (IH w' p' tg' tr' fin' (Nx _ _ eq_refl) H2 H4 R Hq) as [L Fin].
     split; [cbn; lia | exact Fin].
@@ -862,9 +862,9 @@ Proof.
   constructor; [apply H2 | apply IH; assumption].
 Qed.
 
-Theorem quiescent_crash_free : forall ports evs tr fin U,
+Theorem nocross_crash_free : forall ports evs tr fin U,
   (length U <= 32)%nat -> incl (ccids evs) U -> Forall (evok ports) evs ->
-  run ports world0 evs = (tr, fin) -> quiescent evs tr = true ->
+  run ports world0 evs = (tr, fin) -> nocross evs tr = true ->
   length tr = length evs /\ exists w, fin = Some w /\ J ports w.
 Proof.
   intros ports evs tr fin U US Hi He Hr Hq.
